@@ -56,16 +56,17 @@ def run(ctx: Context) -> None:
           and norm_text(mda[0].args[0]) == mask_p and not any(d.kind == 'param' for d in flow.defs_of(mda[0].args[0]))
           and isinstance(lp.target, ast.Tuple) and norm_text(mda[0].args[1]) == norm_text(lp.target.elts[1]))
     ctx.check('R08.1', ok, "each variable is masked with the cropped mask", mg, mda[0] if mda else lp)
+    from ..pattern import Matcher
+    mm = Matcher(ctx, mg)
+    key_v = lp.target.elts[0].id if isinstance(lp.target, ast.Tuple) and isinstance(lp.target.elts[0], ast.Name) else '?'
+    mm.bind['key'] = key_v
     wr = [c for c in calls_in(mg) if callee(ctx, mg, c) == f"{UTILS}.to_netcdf_with_fixes" and any(x is c for x in ast.walk(lp))]
     ok = False
     if len(wr) == 1 and mda:
-        a0 = wr[0].args[0]
-        ok = (isinstance(a0, ast.Call) and isinstance(a0.func, ast.Attribute) and a0.func.attr == 'to_dataset' and flow.resolve(a0.func.value) is mda[0]
-              and norm_text(kwarg(a0, 'name') or ast.Constant(None)) == norm_text(lp.target.elts[0])
-              and norm_text(wr[0].args[1]) == 'variable_path')
-        paths = [n for n in ast.walk(lp) if isinstance(n, ast.Assign) and norm_text(n.targets[0]) == 'variable_path']
-        ok = ok and len(paths) == 1 and norm_text(lp.target.elts[0]) in norm_text(paths[0].value) \
-            and any(norm_text(s) == 'mfdataset_names.append(variable_path)' for s in ast.walk(lp) if isinstance(s, ast.Expr))
+        mm.bind['masked'] = next((norm_text(st.targets[0]) for st in ast.walk(lp) if isinstance(st, ast.Assign) and st.value is mda[0] and isinstance(st.targets[0], ast.Name)), '?')
+        ok = mm.stmt('utils.to_netcdf_with_fixes($masked.to_dataset(name=$key), $vpath)', within=lp) is not None \
+            and mm.stmt('$vpath = $$dir / f"{$key}.nc"', within=lp) is not None \
+            and mm.stmt('$files.append($vpath)', within=lp) is not None
     ctx.check('R08.1', ok, "the masked variable is written under its own name to its own file, which joins the files to merge", mg, wr[0] if wr else lp)
     co = [c for c in calls_in(mg) if (callee(ctx, mg, c) or '').endswith('xarray.Dataset')]
     ok = len(co) == 1 and norm_text(kwarg(co[0], 'coords') or ast.Constant(None)) == f"{ds_p}.coords" \
@@ -74,7 +75,7 @@ def run(ctx: Context) -> None:
     dl = [c for c in calls_in(mg) if callee(ctx, mg, c) == f"{UTILS}.dataset_like"]
     om = [c for c in calls_in(mg) if (callee(ctx, mg, c) or '').endswith('open_mfdataset')]
     ok = (len(dl) == 1 and len(om) == 1 and norm_text(dl[0].args[0]) == ds_p and not any(d.kind == 'param' for d in flow.defs_of(dl[0].args[0]))
-          and flow.resolve(dl[0].args[1]) is om[0] and norm_text(om[0].args[0]) == 'mfdataset_names'
+          and flow.resolve(dl[0].args[1]) is om[0] and isinstance(om[0].args[0], ast.Name) and om[0].args[0].id == mm.name('files')
           and all(flow.resolve(r.value) is dl[0] for r in mg.returns()))
     ctx.check('R08.1', ok, "the per-variable files are merged and re-assembled with the cropped dataset's layout and attributes", mg, dl[0] if dl else mg.node)
 
